@@ -140,6 +140,8 @@ def base_field_src(fam, f, variant):
             args = ["until_marker=%r" % f["marker"]]
             if f.get("include"):
                 args.append("include_delimiter=True")
+            if f.get("noconsume"):
+                args.append("consume_delimiter=False")
         elif m == "regex":
             args = ["until_marker=re.compile(%r)" % REGEXES[f["rx"]][0]]
             if f.get("include"):
